@@ -42,12 +42,16 @@ theorem next_step {β : Type} [Inhabited β] (e n : Nat) (k : β) (ks : List β)
 
 /-- **offset branch** (no total requested): the page is exactly the hits number `o … e-1` (0-based, counted
 from `n`), and `next` is the key of hit number `e` -/
-theorem offLoop_spec (h : Bytes → α → Bool) (o e : Nat) : ∀ (l : List (Bytes × α)) (n : Nat) (acc : List α), n ≤ e →
+theorem addU64_succ (e : Nat) (h : e + 1 < two64) : addU64 e 1 = e + 1 := by
+  unfold addU64 wrapU64; exact Nat.mod_eq_of_lt h
+
+theorem offLoop_spec (h : Bytes → α → Bool) (o e : Nat) (he : e + 1 < two64) : ∀ (l : List (Bytes × α)) (n : Nat) (acc : List α), n ≤ e →
     offLoop (fun k v => some (h k v)) o e false l n acc [] =
       some { items := acc ++ ((((hitsOf h l).map (·.2)).drop (o - n)).take (e - max n o)),
              next := ((((hitsOf h l).map (·.1)).drop (e - n)).head?).getD [],
              total := 0 } := by
   intro l
+  have ha := addU64_succ e he
   induction l with
   | nil => intro n acc _; simp [offLoop]
   | cons x l ih =>
@@ -57,13 +61,13 @@ theorem offLoop_spec (h : Bytes → α → Bool) (o e : Nat) : ∀ (l : List (By
     · by_cases hne : n = e
       · subst hne
         have hlt : ¬ (n < n) := Nat.lt_irrefl n
-        simp only [offLoop, hitsOf_cons, hh, if_true, Bool.true_and, hlt, decide_false, Bool.and_false, Bool.false_eq_true, if_false,
+        simp only [offLoop, ha, hitsOf_cons, hh, if_true, Bool.true_and, hlt, decide_false, Bool.and_false, Bool.false_eq_true, if_false,
           Bool.not_false, List.map_cons, Nat.sub_self, List.drop_zero, List.head?_cons, Option.getD_some, window_at_end,
           List.append_nil]
       · have hn1 : n + 1 ≤ e := by omega
         have hne' : ¬ (n + 1 = e + 1) := by omega
         have hlt : n < e := by omega
-        simp only [offLoop, hitsOf_cons, hh, if_true, Bool.true_and, hne', if_false, List.map_cons]
+        simp only [offLoop, ha, hitsOf_cons, hh, if_true, Bool.true_and, hne', if_false, List.map_cons]
         rw [ih (n + 1) _ hn1, next_step e n k _ [] hlt]
         by_cases hon : o ≤ n
         · simp only [hon, hlt, decide_true, Bool.and_self, if_true, window_hit_in o e n v _ hon hlt, List.append_assoc,
@@ -72,7 +76,7 @@ theorem offLoop_spec (h : Bytes → α → Bool) (o e : Nat) : ∀ (l : List (By
           simp only [hon, decide_false, Bool.false_and, Bool.false_eq_true, if_false, window_hit_before o e n v _ hon']
     · have hh' : h k v = false := by simpa using hh
       have hne : ¬ (n = e + 1) := by omega
-      simp only [offLoop, hitsOf_cons, hh', Bool.false_and, Bool.false_eq_true, if_false, hne]
+      simp only [offLoop, ha, hitsOf_cons, hh', Bool.false_and, Bool.false_eq_true, if_false, hne]
       exact ih n acc hn
 
 /-- the part of a section that remains after `m` hits have been consumed -/
